@@ -1,6 +1,11 @@
 ------------------------------- MODULE C51_Trace -------------------------------
 (* Trace validation of the real RainbowDQN.learn / _dqn_loss against C51.tla (C18).     *)
 (* cfg  = [N, vmin, B, gammaq, n, nstep, combined, per]   (gammaq = agent.gamma * Q)    *)
+(*   further cfg fields describe how the driver built the agent and the inputs (support as *)
+(*   affine image of the grid: scale, shift, vrange, exact; actions A, obs_shape, prior_eps, *)
+(*   clone, bs_ctor, dtypes / shapes / container of the experiences): they do not change    *)
+(*   what is demanded.  On non-dyadic supports (exact = 0) m and rew are rounded to the grid *)
+(*   when within the float32 error bound of a grid point, off-grid markers otherwise.       *)
 (* Event "loss" = one execution of _dqn_loss as seen through the guarded hook and the   *)
 (*   driver's stubs:                                                                    *)
 (*   set   "one" / "n": the experience batch the call worked on (decoded from the       *)
